@@ -315,6 +315,8 @@ LEVEL_TEXT = ("Theorems over all abstract TOML documents and all histories of lo
               "histories rendered as real TOML on every run.")
 DESIGN_REF = "DESIGN.md section 6, C13"
 LEVEL_NOTE = ("Partial: 'keeps its state (RIB contents, sessions)' is not modelled - the theorems show that the manager sends an unchanged "
-              "component a Reconfigure and neither Terminate nor Spawn; spawn/reconfigure/terminate are recording stubs, no unit is run. "
+              "component a Reconfigure and neither Terminate nor Spawn; spawn/reconfigure/terminate are recording stubs, no unit is run by the `c13` engine; the `e2e` engine reloads a real running pipeline "
+              "(bmp-tcp-in -> rib) under traffic and checks from outside that sessions and RIB contents survive, that every reload's settings "
+              "are adopted (router_id_template, listen port) and that routers connecting afterwards are served (design-notes/E2E.md). "
               "Trusted: Coq kernel, ExtrOcamlBasic extraction + OCaml driver, Rust harness (TOML rendering, Debug-based read-out) and generators.")
 TECHNIQUE = "Coq proof over load histories (closed form of one reload + induction) + model/implementation correspondence"
